@@ -35,6 +35,9 @@ impl Kn {
             "rbf" => Kn::Rbf(0.5),
             "poly" => Kn::Poly(2.0, 1.0, 1.0),
             "poly3" => Kn::Poly(3.0, 0.5, 0.0),
+            // non-integer degrees (the base gamma*<a,b>+coef0 can be negative: NaN on both sides)
+            "poly2.5" => Kn::Poly(2.5, 0.5, 1.0),
+            "poly0.5" => Kn::Poly(0.5, 1.0, 2.0),
             "sigmoid" => Kn::Sigmoid(0.1, 0.0),
             _ => panic!("unknown kernel {}", s),
         }
@@ -380,7 +383,7 @@ fn kernel_pair_t<T: RealNumber>(a64: &[f64], b64: &[f64], tag: &str) {
     let eps = T::epsilon().to_f64().unwrap();
     let len = a.len() as f64;
     let t = |v: f64| T::from_f64(v).unwrap();
-    for kname in ["linear", "rbf", "poly", "poly3", "sigmoid"] {
+    for kname in ["linear", "rbf", "poly", "poly3", "poly2.5", "poly0.5", "sigmoid"] {
         let kn = Kn::from_name(kname);
         let lib = |u: &Vec<T>, v: &Vec<T>| -> Result<f64, mc::PanicInfo> {
             mc::guard(|| {
@@ -407,11 +410,11 @@ fn kernel_pair_t<T: RealNumber>(a64: &[f64], b64: &[f64], tag: &str) {
                     Kn::Sigmoid(_, _) => 2.0,
                 };
                 let ulps = 4.0 + (len + 2.0) * amp;
-                let ok = kab == want || (kab - want).abs() <= ulps * eps * kab.abs().max(want.abs()).max(f64::MIN_POSITIVE) || (want.is_infinite() && kab == want);
+                let ok = kab == want || (kab.is_nan() && want.is_nan()) || (kab - want).abs() <= ulps * eps * kab.abs().max(want.abs()).max(f64::MIN_POSITIVE) || (want.is_infinite() && kab == want);
                 if !ok {
                     mc::violation(format!("kernel.{}:closed-form{}", kname, tag), format!("K({:?},{:?})={} but the closed form gives {} (allowed {} ulps of the number type)", ar, br, kab, want, ulps));
                 }
-                if kab.to_bits() != kba.to_bits() {
+                if kab.to_bits() != kba.to_bits() && !(kab.is_nan() && kba.is_nan()) {
                     mc::violation(format!("kernel.{}:asymmetric{}", kname, tag), format!("K({:?},{:?})={} but K(b,a)={}", ar, br, kab, kba));
                 }
                 if let Kn::Rbf(_) = kn {
@@ -685,7 +688,7 @@ impl Harness for C10 {
                 "svc_all_orders": "every x sequence over {0,1,2}^4 x every labelling with both classes x 4 kernels x (C,tol,encoding) settings x ALL (4!)^2 visiting orders (epoch 1); 2-D: every 4-subset of the 3x2 lattice; epoch 2 ((4!)^3 orders) on one sequence family (all in thorough); n=5 with all (5!)^2 orders for the linear and RBF kernels in thorough",
                 "svc_deviation_bounded": "n=6..8 fixed point sets, epochs 1,2(,4): every schedule with at most 1 (2 thorough) non-identity Fisher-Yates steps",
                 "svr": "every x sequence over {0,1,2}^n, y over {-1,0,2}^n, n<=4 (5 thorough) x eps {0,.1,.5} x C {.1,1,100} x tol {1e-2,1e-3,1e-4} x {linear,rbf,poly}; structured sets n in {8,20,72} (also 40,80 thorough)",
-                "kernels": "every vector pair of length <=2 over {0,±1,±2} and length 3 over {0,±1} (all in thorough), each at 6 placements (offset, spacing) in {(0,1),(25,1),(30,1/32),(1000,1),(1000,1/32),(2^20,1)} and in f64 and f32, against the closed form with a rounding allowance of 4+(len+2)*cond ulps of the number type, exact symmetry, RBF in [0,1]; Gram matrices (linear, RBF) of every point sequence n<=4 at the same placements and widths: PSD, RBF diagonal exactly 1",
+                "kernels": "every vector pair of length <=2 over {0,±1,±2} and length 3 over {0,±1} (all in thorough), each at 6 placements (offset, spacing) in {(0,1),(25,1),(30,1/32),(1000,1),(1000,1/32),(2^20,1)} and in f64 and f32, (5 built-in kernels incl. polynomial degrees 2, 3, 2.5 and 0.5) against the closed form with a rounding allowance of 4+(len+2)*cond ulps of the number type, exact symmetry, RBF in [0,1]; Gram matrices (linear, RBF) of every point sequence n<=4 at the same placements and widths: PSD, RBF diagonal exactly 1",
             }),
         }
     }
